@@ -707,9 +707,10 @@ def forward_failures(check, prog):
         fd = c.methods.get('_forward')
         if fd is None:
             continue
-        tries = [n for n in ast.walk(fd) if isinstance(n, ast.Try) and any(
-            isinstance(x, ast.Return) and x.value is not None
-            for b in n.body for x in ast.walk(b))]
+        # the guarded region: the try statement around the forward calculation
+        # (a call in its body), wherever the result is returned from
+        tries = [n for n in ast.walk(fd) if isinstance(n, ast.Try) and n.handlers and any(
+            isinstance(x, ast.Call) for b in n.body for x in ast.walk(b))]
         if not tries:
             continue
         seen += 1
